@@ -1709,7 +1709,7 @@ impl Property for C14 {
     const ID: &'static str = "C14";
     type Case = Case;
     fn rule() -> String {
-        "cases = descriptions of object graphs: allocations with payload ids (deliberately repeated across distinct allocations), strong child edges forming a DAG, shared String leaves, weak edges to live and to dropped targets, every occurrence placed as sequence item / map value / field of a nested struct, Rc or Arc family, DAG wrappers (RcAnchor/RcWeakAnchor, ArcAnchor/ArcWeakAnchor) or recursive wrappers (RcRecursive/RcRecursion, ArcRecursive/ArcRecursion) with links to open nodes (self loop, parent pointer, longer rings), optionally a wrapper as document root. Exhaustive: every strong DAG shape with <= 4 allocations (edge multiplicity 0/1/2 for every ordered pair incl. the root), each in 4 variants (Rc, Arc, with weak edges + shared leaves, recursive with links) with rotating positions; for <= 2 allocations additionally every subset of weak edges, for 3 allocations every single weak edge. Random: graphs with <= 10 allocations and <= 25 strong occurrences, sharing probability swept over 0 .. 1, 40% of them under non-default serializer options (indentation 3/4/8, quote_all, yaml_12, prefer_block_scalars off, tagged_enums, custom anchor names); a further family is read back from the text a person would write, i.e. after the definitions of never-referenced anchors have been removed from the emitted text. Oracle: partition of all wrapper occurrences in traversal order by pointer equality, payloads, weak upgrade classes / dangling, strong counts and (recursive kinds) the id sequence met by following the first weak link are equal before and after from_str(to_string(g)); the emitted text carries exactly the predicted &aN / *aN tokens (each class defined once, every other occurrence an alias); the restored graph serialises to the same text; the text read into plain mirror types equals the tree expansion computed from the description, and read into plain nodes with wrapper leaves the leaves are shared exactly as the leaf allocations are. Non-trivial: a pointer class with >= 2 occurrences, a weak edge, or a cycle. distinct = distinct descriptions.".into()
+        "cases = descriptions of object graphs: allocations with payload ids (deliberately repeated across distinct allocations), strong child edges forming a DAG, shared String leaves, weak edges to live and to dropped targets, every occurrence placed as sequence item / map value / field of a nested struct, Rc or Arc family, DAG wrappers (RcAnchor/RcWeakAnchor, ArcAnchor/ArcWeakAnchor) or recursive wrappers (RcRecursive/RcRecursion, ArcRecursive/ArcRecursion) with links to open nodes (self loop, parent pointer, longer rings) and dangling links, optionally a wrapper as document root. Exhaustive: every strong DAG shape with <= 4 allocations (edge multiplicity 0/1/2 for every ordered pair incl. the root), each in 4 variants (Rc, Arc, with weak edges + shared leaves, recursive with links) with rotating positions; for <= 2 allocations additionally every subset of weak edges, for 3 allocations every single weak edge. Random: graphs with <= 10 allocations and <= 25 strong occurrences, sharing probability swept over 0 .. 1, 40% of them under non-default serializer options (indentation 3/4/8, compact_list_indent, quote_all, yaml_12, prefer_block_scalars off, tagged_enums, custom anchor names); a further family is read back from the text a person would write, i.e. after the definitions of never-referenced anchors have been removed from the emitted text. Oracle: partition of all wrapper occurrences in traversal order by pointer equality, payloads, weak upgrade classes / dangling, strong counts and (recursive kinds) the id sequence met by following the first weak link are equal before and after from_str(to_string(g)); the emitted text carries exactly the predicted &aN / *aN tokens (each class defined once, every other occurrence an alias); the restored graph serialises to the same text; the text read into plain mirror types equals the tree expansion computed from the description, and read into plain nodes with wrapper leaves the leaves are shared exactly as the leaf allocations are. Non-trivial: a pointer class with >= 2 occurrences, a weak edge, or a cycle. distinct = distinct descriptions.".into()
     }
     fn assumptions() -> Vec<String> {
         vec![
